@@ -9,6 +9,12 @@ Lemma lock_inc_spec : lock_inc = 1. Proof. reflexivity. Qed.
 Lemma unlock_dec_spec : unlock_dec = 1. Proof. reflexivity. Qed.
 Lemma lock_published_spec : forall g, lock_published g = g. Proof. reflexivity. Qed.
 Lemma unlock_value_spec : unlock_value = SLOT_IDLE. Proof. reflexivity. Qed.
+Lemma release_value_spec : release_value = SLOT_IDLE. Proof. reflexivity. Qed.
+Lemma release_lock_times_spec : release_lock_times = 0. Proof. reflexivity. Qed.
+Lemma release_locked_true : forall l, release_locked l = true -> l <> 0.
+Proof. intros l H E. unfold release_locked in H. subst. discriminate. Qed.
+Lemma release_locked_false : forall l, release_locked l = false -> l = 0.
+Proof. intros l H. unfold release_locked in H. apply negb_false_iff in H. apply Z.eqb_eq in H. exact H. Qed.
 Lemma slot_init_spec : LOCK_TIMES_INIT = 0. Proof. reflexivity. Qed.
 Lemma tick_inc_spec : tick_inc = 1. Proof. reflexivity. Qed.
 Lemma tick_ret_spec : tick_ret = 1. Proof. reflexivity. Qed.
@@ -35,7 +41,7 @@ Lemma lwm_fallback_false : forall n, lwm_fallback n = false -> n <> 0.
 Proof. intros n H E. apply lwm_fallback_spec in E. congruence. Qed.
 
 Ltac specs :=
-  rewrite ?lock_inc_spec, ?unlock_dec_spec, ?lock_published_spec, ?unlock_value_spec, ?tick_inc_spec, ?tick_ret_spec in *.
+  rewrite ?lock_inc_spec, ?unlock_dec_spec, ?lock_published_spec, ?unlock_value_spec, ?release_value_spec, ?release_lock_times_spec, ?tick_inc_spec, ?tick_ret_spec in *.
 Ltac prepb :=
   prep;
   repeat match goal with
@@ -43,6 +49,8 @@ Ltac prepb :=
   | H : lock_first _ = false |- _ => apply lock_first_false in H
   | H : unlock_last _ = true |- _ => apply unlock_last_spec in H
   | H : unlock_last _ = false |- _ => apply unlock_last_false in H
+  | H : release_locked _ = true |- _ => apply release_locked_true in H
+  | H : release_locked _ = false |- _ => apply release_locked_false in H
   | H : lwm_fallback _ = true |- _ => apply lwm_fallback_spec in H
   | H : lwm_fallback _ = false |- _ => apply lwm_fallback_false in H
   end.
@@ -62,7 +70,8 @@ Record InvB (s : st) : Prop := {
   b_lk : forall t th h i, thr s t th -> pc_lk (tpc th) = Some (h, i) ->
          lt (get_slot s i) = 1 /\ ver (get_slot s i) = SLOT_IDLE;
   b_ul : forall t th h i, thr s t th -> tpc th = UlStore h i -> lt (get_slot s i) = 1 /\ 1 <= hdepth (get_h s h);
-  b_dep : forall h i, hidx (get_h s h) = Some i -> 0 <= hdepth (get_h s h) <= lt (get_slot s i)
+  b_dep : forall h i, hidx (get_h s h) = Some i -> 0 <= hdepth (get_h s h) <= lt (get_slot s i);
+  b_rf : forall t th h i, thr s t th -> tpc th = RlFree h i -> lt (get_slot s i) = 0
 }.
 
 (* a thread other than the owner of the handle bound to slot n is not working on slot n *)
@@ -99,6 +108,7 @@ Qed.
 Ltac bfacts IA IB Hth Hpc :=
   pcfacts IA Hth Hpc;
   try (destruct (b_ul _ IB _ _ _ _ Hth Hpc) as (Ul1 & Ul2));
+  try (pose proof (b_rf _ IB _ _ _ _ Hth Hpc) as Rf0);
   try (destruct (b_lk _ IB _ _ _ _ Hth ltac:(rewrite Hpc; reflexivity)) as (Lk1 & Lk2));
   try (match goal with Hi : hidx (get_h ?s ?h) = Some ?n |- _ => pose proof (b_dep _ IB _ _ Hi) as Dep end).
 
@@ -195,6 +205,20 @@ Proof.
   eexists t, _, _; split; [apply nth_error_set_nth_eq with (y := th); exact Hth | reflexivity].
 Qed.
 
+Lemma pc_bound_rf : forall p h i, p = RlFree h i -> pc_bound p = Some (h, i).
+Proof. intros p h i ->. reflexivity. Qed.
+
+Lemma stepB_rf : forall s t s', InvA s -> InvB s -> step s t = Some s' ->
+  forall t' th' h i, thr s' t' th' -> tpc th' = RlFree h i -> lt (get_slot s' i) = 0.
+Proof.
+  intros s t s' IA IB H. pose proof (b_rf _ IB) as Hrf.
+  step_cases H; bfacts IA IB Hth Hpc; specs; prepb; intros t' th' hc ic Ht' Hpc'; unfold thr in Ht'; simp; thr_cases Hth Ht';
+    try discriminate Hpc'.
+  all: try (pose proof (Hrf _ _ _ _ Ht' Hpc') as K1; simp; gs; try assumption;
+            oslot IA Ht' (pc_bound_rf _ _ _ Hpc'); fail).
+  all: injection Hpc' as <- <-; gs; simp; try assumption; try reflexivity; try congruence.
+Qed.
+
 Lemma InvB_step : forall s t s', InvA s -> InvB s -> gver s < SLOT_IDLE -> step s t = Some s' -> InvB s'.
 Proof.
   intros s t s' IA IB Hov H. constructor.
@@ -206,4 +230,5 @@ Proof.
   - eapply stepB_lk; eauto.
   - eapply stepB_ul; eauto.
   - eapply stepB_dep; eauto.
+  - eapply stepB_rf; eauto.
 Qed.
